@@ -158,6 +158,55 @@ def run_impl(case):
 # =====================================================================================
 # shared: Gallina printers
 # =====================================================================================
+# Rationals are printed with hexadecimal numerals: Coq parses a 53-bit hexadecimal literal about twice as fast as
+# the decimal one, and the case files are parsing-bound.
+def q(x) -> str:
+    """exact rational value of a finite float / int / Fraction as `(Q_ n d)`"""
+    if isinstance(x, Fraction):
+        f = x
+    else:
+        x = float(x)
+        if math.isnan(x) or math.isinf(x):
+            raise ValueError(f"not finite: {x}")
+        f = Fraction(x)
+    n, d = f.numerator, f.denominator
+    return f"(Q_ (-{hex(-n)}) {hex(d)})" if n < 0 else f"(Q_ {hex(n)} {hex(d)})"
+
+
+def oq(x) -> str:
+    x = float(x)
+    return "None" if math.isnan(x) else f"(Some {q(x)})"
+
+
+def er(x) -> str:
+    x = float(x)
+    if math.isnan(x):
+        raise ValueError("nan is not an extended real")
+    if math.isinf(x):
+        return "PInf" if x > 0 else "NInf"
+    return f"(Fin {q(x)})"
+
+
+def qs(xs) -> str:
+    return cq.lst(q(x) for x in xs)
+
+
+def oqs(xs) -> str:
+    return cq.lst(oq(x) for x in xs)
+
+
+def ers(xs) -> str:
+    return cq.lst(er(x) for x in xs)
+
+
+def qmat(m) -> str:
+    return cq.lst(qs(r) for r in m)
+
+
+def oqmat(m) -> str:
+    return cq.lst(oqs(r) for r in m)
+
+
 def method_term(m):
     n = m["name"]
     if n == "sort-objective":
@@ -165,16 +214,16 @@ def method_term(m):
     if n == "sort-constraint":
         return f"(SortConstraint {cq.nat(m['sort'])} {cq.nat(m['first'])} {cq.nat(m['last'])})"
     if n == "cvar-objective":
-        return f"(CvarObjective {cq.nats(m['sort'])} {cq.q(m['p'])})"
-    return f"(CvarConstraint {cq.nat(m['sort'])} {cq.q(m['p'])})"
+        return f"(CvarObjective {cq.nats(m['sort'])} {q(m['p'])})"
+    return f"(CvarConstraint {cq.nat(m['sort'])} {q(m['p'])})"
 
 
 def config_term(obs):
-    return f"(Build_config {cq.qs(obs['rw_n'])} {cq.qs(obs['ow_n'])} {cq.ers(obs['lower_n'])} {cq.ers(obs['upper_n'])})"
+    return f"(Build_config {qs(obs['rw_n'])} {qs(obs['ow_n'])} {ers(obs['lower_n'])} {ers(obs['upper_n'])})"
 
 
 def omat(m):
-    return "None" if m is None else f"(Some {cq.oqmat(m)})"
+    return "None" if m is None else f"(Some {oqmat(m)})"
 
 
 def outcome_term(o, ok_printer):
@@ -193,19 +242,19 @@ def finite_or_raise(xs):
 
 
 def filt_term(case, obs):
-    out = outcome_term(obs["outcome"], lambda w: cq.qs(finite_or_raise(w)))
-    return f"(Filt {config_term(obs)} {method_term(case['method'])} {cq.oqmat(case['objs'])} {omat(case.get('cons'))} {out})"
+    out = outcome_term(obs["outcome"], lambda w: qs(finite_or_raise(w)))
+    return f"(Filt {config_term(obs)} {method_term(case['method'])} {oqmat(case['objs'])} {omat(case.get('cons'))} {out})"
 
 
 def _evaluation_term(o):
     def qm(m):
-        return "None" if m is None else f"(Some {cq.qmat([finite_or_raise(r) for r in m])})"
+        return "None" if m is None else f"(Some {qmat([finite_or_raise(r) for r in m])})"
     fn = o["functions"]
     if fn is None:
         fterm = "None"
     else:
         c = fn["constraints"]
-        fterm = f"(Some ({cq.oqs(fn['objectives'])}, {'None' if c is None else '(Some ' + cq.oqs(c) + ')'}))"
+        fterm = f"(Some ({oqs(fn['objectives'])}, {'None' if c is None else '(Some ' + oqs(c) + ')'}))"
     return f"(Build_evaluation {cq.bs(o['failed'])} {qm(o['ow'])} {qm(o['cw'])} {fterm})"
 
 
@@ -223,8 +272,8 @@ def e2e_term(case, obs):
     zopt = lambda l: "None" if l is None else f"(Some {cq.zs(l)})"
     out = outcome_term(obs["outcome"], _evaluation_term)
     return (f"(E2E (Build_e2e_case {config_term(obs)} {cq.lst(method_term(m) for m in case['filters'])} "
-            f"{zopt(case.get('ofm'))} {zopt(case.get('cfm'))} {cq.nat(obs['rmin_n'])} {cq.oqmat(case['objs'])} "
-            f"{omat(case.get('cons'))} {cq.q(magnitude(case))} {out}))")
+            f"{zopt(case.get('ofm'))} {zopt(case.get('cfm'))} {cq.nat(obs['rmin_n'])} {oqmat(case['objs'])} "
+            f"{omat(case.get('cons'))} {q(magnitude(case))} {out}))")
 
 
 def coq_case(case, obs):
@@ -234,8 +283,8 @@ def coq_case(case, obs):
         for p, a in zip(case["percentiles"], obs["answers"]):
             if a[0] != "ok":
                 raise ValueError("helper raised " + a[1])
-            ans.append(f"({cq.q(p)}, {cq.qs(finite_or_raise(a[1]))})")
-        return f"(Helper {cq.qs(case['values'])} {cq.bs(case['failed'])} {cq.lst(ans)})"
+            ans.append(f"({q(p)}, {qs(finite_or_raise(a[1]))})")
+        return f"(Helper {qs(case['values'])} {cq.bs(case['failed'])} {cq.lst(ans)})"
     if k == "filt":
         return filt_term(case, obs)
     return e2e_term(case, obs)
